@@ -229,8 +229,8 @@ def run_date_files(ctx, res, stats):
 
 def preprocess_input(rng):
     for _ in range(100):
-        ts, info = gen.sim_ts(rng, n=int(rng.integers(3, 7)), trees=int(rng.choice([3, 6, 10])), muts_per_edge=0.6, L=1e4)
-        if ts.num_sites < 4:
+        ts, info = gen.sim_ts(rng, n=int(rng.integers(3, 7)), trees=int(rng.choice([3, 6, 10])), muts_per_edge=1.5, L=1e4)
+        if ts.num_sites < 8:
             continue
         pos = ts.sites_position
         # keep only sites in the middle 60 % so that flanks exist; delete a stretch without simplifying -> disjoint nodes
@@ -239,7 +239,7 @@ def preprocess_input(rng):
         t.delete_sites(np.where((pos < 0.2 * L) | (pos > 0.8 * L))[0])
         t.delete_intervals([[0.45 * L, 0.55 * L]], simplify=False, record_provenance=False)
         out = t.tree_sequence()
-        if out.num_sites >= 3:
+        if out.num_sites >= 5:
             return out
     raise RuntimeError("no preprocess input")
 
@@ -253,7 +253,7 @@ def run_preprocess_files(ctx, res, stats):
         inp, outp = str(d / f"pin{k}.trees"), str(d / f"pout{k}.trees")
         ts.dump(inp)
         gaps = np.diff(ts.sites_position)
-        gapv = float(np.sort(gaps)[len(gaps) // 2] + 0.5) if len(gaps) else 10.0
+        gapv = float(np.sort(gaps)[len(gaps) // 2]) if len(gaps) else 10.0     # the median gap: about half the gaps are cut
         outs = {}
         for gap in (None, gapv):
             for ef in words:
